@@ -176,6 +176,11 @@ def run(prog, chk):
                                  "skip_depth %s 1 is not immediately guarded by skip_depth > 0" % op)
             else:
                 r4.violation(fn.file, fname, nn.get("l"), "depth-store-form:" + key, "unexpected store to skip_depth")
+    r5 = chk.rule("R5-handler-directives", "CIF_TRAVERSE_END and positive (error) handler results leave the production without "
+                  "further scanning, storing or callbacks and are returned unchanged (END becomes CIF_OK in parse_cif)", floor=8)
+    from . import c03
+    prop, res = c03.analysis(prog)
+    c03.verdict_rule(prog, r5, ("handler",), res)
     chk.extra_cov["contexts"] = {w: len(a2.runs) for w, a2 in W.items()}
     chk.extra_cov["skip_depth_writers"] = sorted(a.writers)
 
